@@ -10,12 +10,29 @@ def kw(rng, i):
 
 
 def run(ctx):
+    h2x = K.h2_extra(["c02"], (150, 2500, 800), crashes=False)
+
+    def extra(c):
+        # the response to a client that is slow to open its window, through the real TCPServer of both workers (with the idle
+        # timer running): delivered in full, ended once
+        from . import c07
+
+        r = h2x(c)
+        for i in range(c.scale(4, 40, 12)):
+            d, f = c07.h2_slow_client_case(c.seed * 9173 + i)
+            r["count"] += 1
+            r["dist"]["h2_slow_client"] = r["dist"].get("h2_slow_client", 0) + 1
+            for x in f:
+                r["failures"].append({"case": {"h2": d}, "what": f"{x['backend']}: {x.get('delivered')} of {x.get('expected')} bytes, END_STREAM x{x.get('ends')}, "
+                                                                 f"closed at {x.get('closed_at')}", "signature": "c02h2:" + x["signature"]})
+        return r
+
     return K.run_common(ctx, PROP, ["c02"], (250, 3000, 1000), (300, 3000, 1000), (300, 4000, 1500), kw,
                         "H11 protocol sessions against the H11Proto model; HTTPStream sequences against the stream model; end-to-"
                         "end sessions (statuses incl. 204/304, HEAD, header lists with/without content-length, repeated names, "
                         "chunkings with empty / 1-byte / 20000-byte chunks, HTTP/1.0 and 1.1) parsed by an independent h11 client "
                         "and compared with what the application sent.",
-                        extra=K.h2_extra(["c02"], (150, 2500, 800), crashes=False))
+                        extra=extra)
 
 
 def known_still_fails(k):
